@@ -121,3 +121,33 @@ INFO.update({
 })
 NOT_DECIDED = {k: v.get('not_decided', []) for k, v in INFO.items()}
 ASSUMPTIONS = {k: v.get('assumptions', []) for k, v in INFO.items()}
+
+INFO.update({
+    'C01': {
+        'decides': 'framing prefix ++ ids ++ suffix (unconditional) and its use by byte/char tokenize; byte <-> id identity with the strict '
+                   '256 boundary, no arithmetic/filter on the byte path, from_utf8; special-token split pieces and `last` discipline; one '
+                   'token per Character through CS::new(.., use_graphemes) with unk for clusters and unk_token_id fallback; no bypassing writer',
+        'not_decided': ['decode(encode(s)) == s as a value statement', 'regex crate matching semantics', 'grapheme segmentation'],
+    },
+    'C17': {
+        'decides': 'paired writers of ids and groups in ByteTokenizer::process_input (prefix/special/bytes/code points/suffix, no bypass), '
+                   'same text and grapheme flag for ids and groups, TokenGroup::len / get_weights tables, pad_ids / padding_mask order, sparse '
+                   'matrix size (independent maxima), index planes and offset stepping',
+        'not_decided': ['weights summing to one as float values', 'ndarray shape conversions'],
+    },
+    'C19': {
+        'decides': 'pair selection = filter(freq > 0).max_by_key(freq), merge loop order and recording under the loop index, num_merges '
+                   'formula, worker exits (exhaustion / closed channel only), every pulled line sent, additive reducer, shared word pattern, '
+                   'neighbour-pair guards of the incremental statistics',
+        'not_decided': ['that the incremental statistics equal a recount (value level); only the guards of each update are checked',
+                        'tie-breaking among equally frequent pairs (hash order) is not constrained by the property'],
+    },
+    'C20': {
+        'decides': 'unlimited sentinels reach no capacity / checked arithmetic, top-k heap shape (Reverse((freq, word)), strict eviction, full '
+                   'drain), shared line iterator = flat_map(lines).take(max_sequences) inside the mutex, worker exits and additive reducer '
+                   '(no removal), freq_sum, save/load separator agreement, get_closest strict-less / equal / most-frequent table',
+        'not_decided': ['exact frequencies as a value statement', 'which of several equally frequent, equally close entries is returned (hash order)'],
+    },
+})
+NOT_DECIDED = {k: v.get('not_decided', []) for k, v in INFO.items()}
+ASSUMPTIONS = {k: v.get('assumptions', []) for k, v in INFO.items()}
